@@ -80,11 +80,14 @@ pub struct Opts {
     pub debug: bool,
     /// Include virtual positions where the reader exposes them.
     pub vpos: bool,
+    /// Use a fresh record (buffer) for every record instead of reusing one across the document. The rendering
+    /// must not depend on it (see [`reuse_check`]).
+    pub fresh: bool,
 }
 
 impl Opts {
     pub fn new(input_len: usize) -> Self {
-        Self { api: Api::Eager, capacity: None, input_len, raw: false, bgzf_read: None, bed_n: 3, debug: true, vpos: true }
+        Self { api: Api::Eager, capacity: None, input_len, raw: false, bgzf_read: None, bed_n: 3, debug: true, vpos: true, fresh: false }
     }
     pub fn for_doc(doc: &Doc) -> Self {
         let mut o = Self::new(doc.bytes.len());
@@ -223,6 +226,22 @@ fn drive_bufread<R: BufRead>(format: Format, src: R, o: &Opts) -> Vec<String> {
         }
         _ => unreachable!("format {format} takes a Read"),
     }
+}
+
+/// Reads `bytes` twice — once reusing one record buffer across the whole document, once with a fresh buffer per
+/// record — and returns the first differing item `(index, reused, fresh)` if the renderings differ.
+pub fn reuse_check(format: Format, bytes: &[u8], opts: &Opts) -> Option<(usize, String, String)> {
+    let mut a = opts.clone();
+    a.fresh = false;
+    let mut b = opts.clone();
+    b.fresh = true;
+    let la = read_log(format, bytes, &a);
+    let lb = read_log(format, bytes, &b);
+    if la == lb {
+        return None;
+    }
+    let i = la.iter().zip(lb.iter()).position(|(x, y)| x != y).unwrap_or(la.len().min(lb.len()));
+    Some((i, la.get(i).cloned().unwrap_or_else(|| "<nothing>".into()), lb.get(i).cloned().unwrap_or_else(|| "<nothing>".into())))
 }
 
 fn nonterm(log: &mut Vec<String>, ty: &str) {
@@ -384,6 +403,9 @@ fn bam_log<R: Read>(mut r: bam::io::Reader<R>, o: &Opts, vp: impl Fn(&bam::io::R
                     nonterm(&mut log, "bam::io::Reader::read_record_buf");
                     return log;
                 }
+                if o.fresh {
+                    rec = Default::default();
+                }
                 match r.read_record_buf(&header, &mut rec) {
                     Ok(0) => break,
                     Ok(n) => log.push(format!("rec[{i}]: bs={n} {}{}", render::render_alignment_record(&header, &rec, &lim), vp_suffix(o, vp(&r)))),
@@ -402,7 +424,13 @@ fn bam_log<R: Read>(mut r: bam::io::Reader<R>, o: &Opts, vp: impl Fn(&bam::io::R
                     nonterm(&mut log, "bam::io::Reader::read_record");
                     return log;
                 }
-                match r.read_record(&mut rec) {
+                if o.fresh {
+                    rec = Default::default();
+                }
+                if o.fresh {
+            rec = Default::default();
+        }
+        match r.read_record(&mut rec) {
                     Ok(0) => break,
                     Ok(n) => {
                         let line = render::render_alignment_record(&header, &rec, &lim);
@@ -448,6 +476,9 @@ fn sam_log<R: BufRead>(mut r: sam::io::Reader<R>, o: &Opts, vp: impl Fn(&sam::io
                     nonterm(&mut log, "sam::io::Reader::read_record_buf");
                     return log;
                 }
+                if o.fresh {
+                    rec = Default::default();
+                }
                 match r.read_record_buf(&header, &mut rec) {
                     Ok(0) => break,
                     Ok(n) => log.push(format!("rec[{i}]: n={n} {}{}", render::render_alignment_record(&header, &rec, &lim), vp_suffix(o, vp(&r)))),
@@ -466,7 +497,13 @@ fn sam_log<R: BufRead>(mut r: sam::io::Reader<R>, o: &Opts, vp: impl Fn(&sam::io
                     nonterm(&mut log, "sam::io::Reader::read_record");
                     return log;
                 }
-                match r.read_record(&mut rec) {
+                if o.fresh {
+                    rec = Default::default();
+                }
+                if o.fresh {
+            rec = Default::default();
+        }
+        match r.read_record(&mut rec) {
                     Ok(0) => break,
                     Ok(n) => {
                         let line = render::render_alignment_record(&header, &rec, &lim);
@@ -619,6 +656,9 @@ fn vcf_log<R: BufRead>(mut r: vcf::io::Reader<R>, o: &Opts, vp: impl Fn(&vcf::io
                     nonterm(&mut log, "vcf::io::Reader::read_record_buf");
                     return log;
                 }
+                if o.fresh {
+                    rec = Default::default();
+                }
                 match r.read_record_buf(&header, &mut rec) {
                     Ok(0) => break,
                     Ok(n) => log.push(format!("rec[{i}]: n={n} {}{}", render::render_variant_record(&header, &rec, &lim), vp_suffix(o, vp(&r)))),
@@ -637,7 +677,13 @@ fn vcf_log<R: BufRead>(mut r: vcf::io::Reader<R>, o: &Opts, vp: impl Fn(&vcf::io
                     nonterm(&mut log, "vcf::io::Reader::read_record");
                     return log;
                 }
-                match r.read_record(&mut rec) {
+                if o.fresh {
+                    rec = Default::default();
+                }
+                if o.fresh {
+            rec = Default::default();
+        }
+        match r.read_record(&mut rec) {
                     Ok(0) => break,
                     Ok(n) => {
                         let line = render::render_variant_record(&header, &rec, &lim);
@@ -674,6 +720,9 @@ fn bcf_log<R: Read>(mut r: bcf::io::Reader<R>, o: &Opts, vp: impl Fn(&bcf::io::R
                     nonterm(&mut log, "bcf::io::Reader::read_record_buf");
                     return log;
                 }
+                if o.fresh {
+                    rec = Default::default();
+                }
                 match r.read_record_buf(&header, &mut rec) {
                     Ok(0) => break,
                     Ok(n) => log.push(format!("rec[{i}]: n={n} {}{}", render::render_variant_record(&header, &rec, &lim), vp_suffix(o, vp(&r)))),
@@ -692,7 +741,13 @@ fn bcf_log<R: Read>(mut r: bcf::io::Reader<R>, o: &Opts, vp: impl Fn(&bcf::io::R
                     nonterm(&mut log, "bcf::io::Reader::read_record");
                     return log;
                 }
-                match r.read_record(&mut rec) {
+                if o.fresh {
+                    rec = Default::default();
+                }
+                if o.fresh {
+            rec = Default::default();
+        }
+        match r.read_record(&mut rec) {
                     Ok(0) => break,
                     Ok(n) => {
                         let line = render::render_variant_record(&header, &rec, &lim);
@@ -848,6 +903,9 @@ fn fastq_log<R: BufRead>(src: R, o: &Opts) -> Vec<String> {
             nonterm(&mut log, "fastq::io::Reader::read_record");
             return log;
         }
+        if o.fresh {
+            rec = Default::default();
+        }
         match r.read_record(&mut rec) {
             Ok(0) => break,
             Ok(n) => log.push(format!("rec[{i}]: n={n} {}", render_fastq_record(&rec))),
@@ -933,6 +991,9 @@ fn gff_log<R: BufRead>(src: R, o: &Opts) -> Vec<String> {
                 if i > o.cap() {
                     nonterm(&mut log, "gff::io::Reader::read_line");
                     return log;
+                }
+                if o.fresh {
+                    line = Default::default();
                 }
                 match r.read_line(&mut line) {
                     Ok(0) => break,
@@ -1054,6 +1115,9 @@ fn gtf_log<R: BufRead>(src: R, o: &Opts) -> Vec<String> {
                     nonterm(&mut log, "gtf::io::Reader::read_line");
                     return log;
                 }
+                if o.fresh {
+                    line = Default::default();
+                }
                 match r.read_line(&mut line) {
                     Ok(0) => break,
                     Ok(n) => log.push(format!("line[{i}]: n={n} {}", render_gtf_line(&line, &lim))),
@@ -1108,6 +1172,9 @@ fn bed3_log<R: BufRead>(src: R, o: &Opts) -> Vec<String> {
             nonterm(&mut log, "bed::io::Reader<3>::read_record");
             return log;
         }
+        if o.fresh {
+            rec = Default::default();
+        }
         match r.read_record(&mut rec) {
             Ok(0) => break,
             Ok(n) => log.push(format!("rec[{i}]: n={n} {}{}", bed_common(rec.reference_sequence_name(), rec.feature_start(), rec.feature_end()), bed_other(&rec, &lim, debug_of(&rec, &lim, "bed::Record<3>")))),
@@ -1132,6 +1199,9 @@ fn bed6_log<R: BufRead>(src: R, o: &Opts) -> Vec<String> {
         if i > o.cap() {
             nonterm(&mut log, "bed::io::Reader<6>::read_record");
             return log;
+        }
+        if o.fresh {
+            rec = Default::default();
         }
         match r.read_record(&mut rec) {
             Ok(0) => break,
@@ -1207,7 +1277,13 @@ fn crai_log<R: Read>(src: R, o: &Opts) -> Vec<String> {
                     nonterm(&mut log, "cram::crai::io::Reader::read_record");
                     return log;
                 }
-                match r.read_record(&mut rec) {
+                if o.fresh {
+                    rec = Default::default();
+                }
+                if o.fresh {
+            rec = Default::default();
+        }
+        match r.read_record(&mut rec) {
                     Ok(0) => break,
                     Ok(_) => log.push(format!("rec[{i}]: {}", render_crai_record(&rec))),
                     Err(e) => {
